@@ -430,6 +430,9 @@ func histGen(prop string, stores []string) func(t *rapid.T) histCase {
 		if store != "rs" {
 			o.CompoundKeys = true
 			o.Types = []string{"int8", "int32", "int64", "uint16", "decimal64", "string", "boolean"}
+			if !strings.HasSuffix(store, "-struct") {
+				o.KeyTypes = []string{"string", "int32", "string", "int32", "int8", "int64", "uint16", "uint64", "boolean"}
+			}
 		}
 		if strings.HasSuffix(store, "-struct") {
 			// plain struct fields: no case detection, and a zero field is what an unset leaf looks like
